@@ -75,6 +75,7 @@ def impl_miter(case):
 
 
 def correspondence(ctx, model_ok):
+    gen.HOSTILE_P = 0.03     # unusual but legal labels: '', '@', 'a@b', mutual prefixes, case pairs
     r = CorrResult()
     r.rule = ('pairs of random circuits of equal shape (1-3 outputs incl. single output, 0-4 inputs, shared labels '
               'between the two, outputs that are inputs or repeated, blocks inside operands) plus ~15% mismatched '
